@@ -16,11 +16,11 @@ LEVEL_TEXT = ('dry-run: the after-snapshot must equal the before-snapshot and th
               'run removes on an identical world; interactive: for every reply not starting with y/Y (incl. empty and end of input) the snapshot must be unchanged')
 LEVEL_NOTE = ('trusted: snapshot comparer; the dry-run line for the payload path of an info-without-payload entry is pinned by the repository\'s own test and treated as don\'t-care')
 RULE = ('contents: multisets (<=2, thorough <=3) over {old, recent, undated, garbage-date, info-without-payload, tree payload, symlink payload} + orphan payload x DAYS {none,0,1} x '
-        'flags {-, --trash-dir, -v, two volumes, --trash-dir LINK/../dir with a look-alike where a lexical collapse would point}; replies: all strings of length <=2 over {y,Y,n,N,e,s,space} + {"", EOF, yes, no, Yes, " y", nope, "yY", "\\ty"} x {-i, isatty=True} x DAYS {none, 1}, and 6 negative replies when only payloads without .trashinfo are left; '
+        'flags {-, --trash-dir, -v, -vv, two volumes, --trash-dir LINK/../dir with a look-alike where a lexical collapse would point}; replies: all strings of length <=2 over {y,Y,n,N,e,s,space} + {"", EOF, yes, no, Yes, " y", nope, "yY", "\\ty"} x {-i, isatty=True} x DAYS {none, 1}, and 6 negative replies when only payloads without .trashinfo are left; '
         'non-trivial = something was eligible for removal; distinct = (part, DAYS, flags or reply class, outcome)')
 NOW = '2024-05-06T07:08:09'
 KINDS = ['old', 'recent', 'undated', 'garbage', 'nopayload', 'tree', 'link']
-FLAGS = ['-', 'trash-dir', '-v', 'twovol', 'trash-dir-dotdot']
+FLAGS = ['-', 'trash-dir', '-v', '-vv', 'twovol', 'trash-dir-dotdot']
 DAYS = [None, 0, 1]
 RALPHA = ['y', 'Y', 'n', 'N', 'e', 's', ' ']
 REXTRA = ['', None, 'yes', 'no', 'Yes', ' y', 'nope', 'yY', '\ty', 'Ýes', 'y\x00']
@@ -62,7 +62,7 @@ def cases(tier):
 
 def fill(W, td, ms, rel):
     for i, k in enumerate(ms):
-        nm = ('e%d', 'e%d.trashinfo.x', '.e%d')[i % 3] % i          # ordinary; '.trashinfo' inside the name; hidden
+        nm = ('e', 'e_1.trashinfo.x', '.e2', 'e.txt')[i % 4]          # the first name is a proper prefix of the second and fourth; '.trashinfo' inside a name; a hidden one
         pv = ('w/%s' if rel else '/home/u/w/%s') % nm
         date = {'old': '2020-01-01T00:00:00', 'recent': NOW, 'undated': None, 'garbage': 'soon'}.get(k, '2020-01-01T00:00:00')
         payload = {'nopayload': None, 'tree': 'tree', 'link': 'ldir'}.get(k, 'file')
@@ -91,8 +91,8 @@ def build(c):
         fill(W, '/home/u/custom', ms, rel=False)
     elif fl == 'twovol':
         tds = [scen.HOME_TRASH, '/mnt/v1/.Trash-0']
-    elif fl == '-v':
-        argv.append('-v')
+    elif fl in ('-v', '-vv'):
+        argv.append(fl)
     for td in tds:
         scen.add_trash_dir(W, td)
         fill(W, td, ms, rel=td.startswith('/mnt'))
